@@ -9,7 +9,7 @@ EXPLANATION = (
     "forward_msat=Some; pass-through results are `continue`; (N2) short_channel_id present and every Err/None of the extractor reach only the default "
     "continue; (R1) the single payload rewrite is to_bytes(clone(req.onion.payload) with record 16 removed) behind `metadata parsed and contains "
     "33001 or 33003`; (R2) the removal is Vec::remove(position(typ==..)) / retain, never reordering; (R3) re-serialisation preserves the other "
-    "records byte-for-byte: C18-T1/L1 (evaluated here as well)."
+    "records byte-for-byte: C18-T1/L1 (evaluated here as well); the decoders that see the sender's bytes before classification are total (C18-P/C18-U), so the HTLC is answered."
 )
 ASSUMPTIONS = ["C18 for byte-level fidelity of decode/encode"]
 
@@ -36,3 +36,7 @@ def run(F, X, rep):
     p_c18.c18_t1(F, X, rep, bodies)
     p_c18.c18_l1(F, X, rep, bodies)
     p_c18.c18_e(F, X, rep, bodies)
+    # "is answered with `continue`": the decoders run on sender-chosen bytes BEFORE the HTLC is classified, so a panic in one of them (an
+    # over-long amount field, a truncated record) leaves a non-trampoline HTLC unanswered: decoder totality (C18-P) and the tu64 length gate (C18-U)
+    p_c18.c18_p(F, X, rep, bodies)
+    p_c18.c18_u(F, X, rep, bodies)
